@@ -52,7 +52,7 @@ func gen(r *kit.Rand) gcase {
 	var c gcase
 	c.volume = kit.Pick(r, float64(r.Range(1, 1000)), float64(r.Range(1000, 10_000_000)), 86400, 100000, 23499)
 	ticks := kit.Pick(r, r.Range(10, 200), r.Range(200, 1500), 60, 1440)
-	c.freq = kit.Pick(r, int64(1_000_000_000), 100_000_000, 60_000_000_000, 5_000_000_000, 10_000_000)
+	c.freq = kit.Pick(r, int64(1_000_000_000), 100_000_000, 60_000_000_000, 5_000_000_000, 10_000_000, 250_000_000, 150_000_000, 1_250_000_000, 1_500_000, 7_500_000)
 	c.repeat = ticks * c.freq
 	c.peak = r.Range(0, c.repeat)
 	if r.Chance(15) {
@@ -76,7 +76,7 @@ func gen(r *kit.Rand) gcase {
 	}
 	c.windows = int(r.Range(1, 3))
 	c.firstWindow = windowOf(1_700_000_000_000_000_000, c.repeat) + r.Range(1, 50)
-	c.viaRate = r.Chance(30)
+	c.viaRate = r.Chance(45)
 	return c
 }
 
